@@ -818,8 +818,21 @@ class TaskScenario(ScenarioData):
         else:
             seconds_into_slot = slot_duration_seconds
 
-        # Clamp to slot duration (shouldn't exceed, but safety check)
-        seconds_into_slot = min(seconds_into_slot, slot_duration_seconds)
+        # What this task holds in the slot is what was still free when it booked: the slot may already
+        # carry other tasks' work or a start offset. That earlier part ends where this task's part begins.
+        res_scenario = None
+        booked_seconds = slot_duration_seconds
+        if resource:
+            res_scenario = resource.data[self.scenarioIdx] if resource.data else None
+            if res_scenario and self.currentSlotIdx in res_scenario.slotTaskUsage:
+                for task, secs in res_scenario.slotTaskUsage[self.currentSlotIdx]:
+                    if task == self.property:
+                        booked_seconds = secs
+                        break
+        seconds_before = slot_duration_seconds - booked_seconds
+
+        # Clamp to the booked part of the slot (shouldn't exceed, but safety check)
+        seconds_into_slot = min(seconds_into_slot, booked_seconds)
 
         # Calculate the precise end time, rounded to nearest second
         # (Gold standard uses second-level precision)
@@ -828,9 +841,9 @@ class TaskScenario(ScenarioData):
         if forward:
             # For forward scheduling, end time is offset from slot start
             if slot_start is not None:
-                precise_end = slot_start + timedelta(seconds=seconds_rounded)
+                precise_end = slot_start + timedelta(seconds=seconds_before + seconds_rounded)
             else:
-                precise_end = self.project["start"] + timedelta(seconds=seconds_rounded)
+                precise_end = self.project["start"] + timedelta(seconds=seconds_before + seconds_rounded)
         else:
             # For backward scheduling, we're calculating the START time
             # The start is at the END of the slot minus unused time
@@ -838,14 +851,13 @@ class TaskScenario(ScenarioData):
             # If we used part of it, start is later in the slot
             if slot_start is not None:
                 slot_end = slot_start + timedelta(seconds=slot_duration_seconds)
-                precise_end = slot_end - timedelta(seconds=seconds_rounded)
+                precise_end = slot_end - timedelta(seconds=seconds_before + seconds_rounded)
             else:
                 precise_end = self.project["start"]
 
         # Release unused portion of the slot back to the resource
-        seconds_unused = slot_duration_seconds - seconds_into_slot
+        seconds_unused = booked_seconds - seconds_into_slot
         if seconds_unused > 0 and resource:
-            res_scenario = resource.data[self.scenarioIdx] if resource.data else None
             if res_scenario:
                 # Update the per-task usage record to reflect actual usage
                 if self.currentSlotIdx in res_scenario.slotTaskUsage:
@@ -856,12 +868,9 @@ class TaskScenario(ScenarioData):
                             break
 
                 # Update total slotSecondsUsed to release unused time
-                # Old value was full slot duration, new value is actual usage
                 old_total = res_scenario.slotSecondsUsed.get(self.currentSlotIdx, slot_duration_seconds)
-                # Subtract what was previously booked (full slot) and add actual usage
-                res_scenario.slotSecondsUsed[self.currentSlotIdx] = (
-                    old_total - slot_duration_seconds + seconds_into_slot
-                )
+                # Subtract what this task had booked and add its actual usage
+                res_scenario.slotSecondsUsed[self.currentSlotIdx] = old_total - booked_seconds + seconds_into_slot
 
         return precise_end, seconds_into_slot
 
